@@ -49,8 +49,10 @@ class BlockReader {
   BlockReader& operator=(const BlockReader&) = default;
 
   constexpr std::size_t size() const { return size_; }
-  constexpr ValueType operator[](const std::size_t index) const {
-    return data_[index];
+  // Returns the byte at |index| as an unsigned value: a plain char above 0x7f
+  // must not be sign-extended when it is widened into a 64-bit block.
+  constexpr std::uint8_t operator[](const std::size_t index) const {
+    return static_cast<std::uint8_t>(data_[index]);
   }
 
  private:
